@@ -87,6 +87,19 @@ def groom(n, fill):
     del junk
 
 
+def _unc_positions(entry, nargs):
+    """positions of the uncertainty arguments in the positional signatures: Converter (x, y, dy), Transformer (x, y, xout, dy),
+    FourierFilter (r, gr, q, fq, cutoff, dgr, dfq)"""
+    cls = entry.split(".")[0]
+    if cls == "Converter":
+        return {2}
+    if cls == "Transformer":
+        return {3}
+    if cls == "FourierFilter":
+        return {5, 6}
+    return set()
+
+
 def _same(r1, r2):
     if r1[0] != r2[0]:
         return False
@@ -112,6 +125,22 @@ def evaluate(case):
         if s is not None and not np.array_equal(s.view(np.uint64), a.view(np.uint64)):
             fails.append(f"{entry}: modifies an argument array")
             return fails
+    # ... also when an uncertainty vector holds a masked (NaN) or infinite entry: the caller's arrays are the caller's
+    if entry.split(".")[0] in ("Transformer", "FourierFilter", "Converter"):
+        pa = _mk(case)
+        touched = False
+        for k in range(len(pa)):
+            if k >= 2 and pa[k] is not None and not np.isscalar(pa[k]) and len(pa[k]) >= 2 and k in _unc_positions(entry, len(pa)):
+                pa[k][0], pa[k][-1] = np.nan, np.inf
+                touched = True
+        if touched:
+            psnap = [None if a is None or np.isscalar(a) else a.copy() for a in pa]
+            with np.errstate(all="ignore"):
+                impl.call(entry, pa, kw)
+            for k, (s0, a) in enumerate(zip(psnap, pa)):
+                if s0 is not None and not np.array_equal(s0.view(np.uint64), a.view(np.uint64)):
+                    fails.append(f"{entry}: modifies argument {k} (an uncertainty vector holding NaN/inf entries came back changed)")
+                    return fails
     n = max([len(a) for a in args if a is not None and not np.isscalar(a)] + [1])
     # repeated call, interleaved with unrelated calls and poisoned allocations
     t = impl.obj("Transformer")
